@@ -62,6 +62,15 @@ CHECKS = {
             'bookkeeping helpers (Python with and without NumPy, C length and loop order through ctypes).',
             'Trusts vlib/ref.py for entry values; the exhaustive leg is complete only for the stated n.',
             'DESIGN.md §3 C06'),
+    'C08': ('sanitizer-instrumented native harness: exhaustive structural sweep (gcc ASan+UBSan+OpenMP) and coverage-guided '
+            'fuzzing (clang libFuzzer+ASan+UBSan) of the repository C sources through one structured entry function',
+            'native/c08_harness.c decodes bytes into structured arguments for 14 groups of exported C routines, allocates '
+            'every buffer at exactly the documented size and runs under ASan/UBSan with recovery off; the sweep enumerates '
+            'the complete lattice (lengths <= 4 quick / 6 thorough) and libFuzzer searches lengths <= 12; a semantic '
+            'side-oracle rides along. Any report is a violation whose replay is the single failing input.',
+            'Trusts the sanitizers and the harness decoding; executed paths only; uninitialised reads, idx_t overflow '
+            'sizes and lengths > 12 are not explored; one open finding (F08b slices) is excluded by a harness switch.',
+            'DESIGN.md §3 C08, §2.8a'),
     'C09': ('property-based testing (Hypothesis): inequalities against the reference DTW and equality of every bound '
             'implementation with an independent reference bound',
             'Generated pairs with sign classes, unequal lengths, windows, ndim; LB_Keogh <= DTW and ED >= DTW are checked '
@@ -105,7 +114,7 @@ def main():
                 'thorough_cmd': '/venv/bin/python check.py %s --tier thorough' % pid,
                 'evidence_file': 'evidence/%s.json' % pid,
                 'replay_cmd_template': '/venv/bin/python check.py %s --replay {path}' % pid,
-                'engine': 'pbt-core',
+                'engine': 'native-asan' if pid == 'C08' else 'pbt-core',
                 'level_claimed': {'category': 'exploration', 'text': text, 'design_ref': ref},
                 'level_note': note,
                 'technique': tech,
@@ -129,6 +138,9 @@ def main():
             {'name': 'pbt-core', 'path': 'vlib/', 'serves_properties': sorted(CHECKS),
              'kind_free_text': 'Hypothesis-driven generated search with reference oracles, collect->bucket->shrink, '
                                'JSON replay files, sharded over 16 processes'},
+            {'name': 'native-asan', 'path': 'native/c08_harness.c', 'serves_properties': ['C08'],
+             'kind_free_text': 'clang libFuzzer + gcc sweep of the repository C sources under ASan/UBSan, one structured '
+                               'entry function, buffers at exactly the documented sizes'},
         ],
         'checks': checks,
         'not_applicable': na,
